@@ -289,6 +289,7 @@ impl Identity {
                 Signer::Empty => "empty",
                 Signer::Truncated => "truncated",
                 Signer::Genuine => "the-node's-own-key",
+                Signer::Observed => "signature-lifted-from-a-genuine-handshake",
                 Signer::AdvExtended(..) => "adv-key-with-appended-bytes",
             };
             self.class(format!("forged/{know}/{r}/{sg}{}", if outstanding { "" } else { "/no-challenge-outstanding" }));
